@@ -7,7 +7,7 @@
    (Xml, XmlIndent, Json, JsonIndent), encoding/json and encoding/gob are
    PARAMETERS of the model (Section variables): the loops, the file-system
    preamble, the separator logic, NewMapGob's and NewMapJson's special cases,
-   the Json() post-processing rewrite and the getJson scanner are mxj's own
+   Json()'s trimming of the encoder output and the getJson scanner are mxj's own
    code and are transcribed statement by statement.
 
    No proofs here (Proofs/C19P.v). *)
@@ -33,7 +33,7 @@ Section ReadLoop.
   Record taken := mkTaken { t_doc : D; t_err : rerr; t_rest : St }.
 
   Variable take : St -> taken.
-  Variable keep : D -> bool.          (* len(m) > 0 *)
+  Variable keep : D -> bool.          (* m != nil *)
 
   Inductive loop_res :=
   | LDone (am : list D)               (* return am, nil *)
@@ -45,7 +45,7 @@ Section ReadLoop.
       for {
           m, raw, err := NewMapXmlReaderRaw(fh)
           if err != nil && err != io.EOF { return am, fmt.Errorf(...) }
-          if len(m) > 0 { am = append(am, m) }
+          if m != nil { am = append(am, m) }
           if err == io.EOF { break }
       }
       return am, nil *)
@@ -95,13 +95,14 @@ Arguments LDone {D}. Arguments LErr {D}. Arguments LPanic {D}. Arguments LFuel {
 Arguments StatFails {St}. Arguments NotRegular {St}. Arguments OpenFails {St}. Arguments Opened {St}.
 Arguments FR {D}. Arguments FRPanic {D}. Arguments FRFuel {D}.
 
-(* len(m) > 0 for a Map value; a nil Map is VNil *)
-Definition map_len_pos (v : value) : bool :=
-  match v with VMap (_ :: _) => true | _ => false end.
+(* m != nil for a Map value; a nil Map is VNil  (fix fd230a2; before it the loops tested
+   len(m) > 0 and dropped the document {}) *)
+Definition map_not_nil (v : value) : bool :=
+  match v with VNil => false | _ => true end.
 
 (* MapRaw{M, R} *)
 Definition mapraw := (value * bytes)%type.
-Definition keep_raw (mr : mapraw) : bool := map_len_pos (fst mr).
+Definition keep_raw (mr : mapraw) : bool := map_not_nil (fst mr).
 
 (* The four exported readers.  The XML and the JSON functions are the same
    statements around a different one-document reader, which is the parameter. *)
@@ -114,7 +115,7 @@ Section Readers.
     let t := rd st in mkTaken (fst (t_doc t)) (t_err t) (t_rest t).
 
   Definition new_maps_from_file (fuel : nat) (f : fstate St) : file_res value :=
-    maps_from_file rd_map map_len_pos fuel f.
+    maps_from_file rd_map map_not_nil fuel f.
   Definition new_maps_from_file_raw (fuel : nat) (f : fstate St) : file_res mapraw :=
     maps_from_file rd keep_raw fuel f.
 End Readers.
@@ -167,49 +168,54 @@ End Writers.
 Arguments string_loop {M}. Arguments string_loop_nl {M}. Arguments maps_string {M}. Arguments maps_file {M}.
 
 (* ------------------------------------------------------------------ *)
-(* json.go:20-34 Json(): json.Marshal, then unless safeEncoding three bytes.Replace(b, old, new, -1) *)
-Fixpoint replace_all_aux (old new x : bytes) (skip : nat) : bytes :=
-  match x with
-  | [] => []
-  | c :: x' =>
-      match skip with
-      | S k => replace_all_aux old new x' k
-      | O => if prefixb old x then new ++ replace_all_aux old new x' (length old - 1)
-             else c :: replace_all_aux old new x' 0
-      end
-  end.
-(* bytes.Replace(x, old, new, -1) for a non-empty old *)
-Definition replace_all (old new x : bytes) : bytes := replace_all_aux old new x 0.
-
+(* json.go marshalJSON / Json / NewMapJson / mxj.go Copy  (fixes b2598e9, f8aa2ac, ad83684).
+   Json() is the output of a json.Encoder with SetEscapeHTML(safeEncoding), minus the newline
+   Encode appends; there is no rewrite of the marshalled bytes any more. *)
 Definition bsl : ascii := "\"%char.
-Definition esc_lt : bytes := bsl :: s "u003c".
-Definition esc_gt : bytes := bsl :: s "u003e".
-Definition esc_amp : bytes := bsl :: s "u0026".
+Definition nl_byte : ascii := "010"%char.
 
-Definition json_post (b : bytes) : bytes :=
-  replace_all esc_amp (s "&") (replace_all esc_gt (s ">") (replace_all esc_lt (s "<") b)).
+(* bytes.TrimSuffix(b, "\n") *)
+Definition trim_nl (b : bytes) : bytes :=
+  match rev b with
+  | c :: r => if Ascii.eqb c nl_byte then rev r else b
+  | [] => b
+  end.
 
 Section JsonCopy.
-  Variable marshal : value -> bytes * bool.      (* json.Marshal(mv): bytes and whether err != nil *)
-  Variable json_dec : bytes -> res value.        (* json.NewDecoder(bytes).Decode(&m) into a fresh map; class of the error only *)
+  Variable encode : bool -> value -> option bytes.   (* enc.SetEscapeHTML(esc); enc.Encode(v): the buffer; None = error *)
+  Variable json_dec : bytes -> res value.            (* json.NewDecoder(bytes).Decode(&v) with v interface{}: the first value; class of the error only *)
 
-  Definition map_json (safe : bool) (mv : value) : bytes * bool :=
-    let (b, err) := marshal mv in ((if safe then b else json_post b), err).
+  (* marshalJSON(v, escapeHTML) *)
+  Definition marshal_json (esc : bool) (v : value) : option bytes :=
+    match encode esc v with
+    | None => None
+    | Some b => Some (trim_nl b)
+    end.
 
-  (* json.go:128-147 NewMapJson *)
+  (* Map.Json(safeEncoding...) *)
+  Definition map_json (safe : bool) (mv : value) : option bytes := marshal_json safe mv.
+
+  (* NewMapJson: empty input is the empty Map; the first value must be an object, or an
+     array (given the root key "object"); anything else, null included, is an error *)
   Definition new_map_json (j : bytes) : res value :=
     match j with
     | [] => Ok (VMap [])
-    | c :: _ =>
-        if Ascii.eqb c "["%char
-        then json_dec (s "{""object"":" ++ j ++ s "}")
-        else json_dec j
+    | _ =>
+        match json_dec j with
+        | Ok (VMap m) => Ok (VMap m)
+        | Ok (VList l) => Ok (VMap [(s "object", VList l)])
+        | Ok _ => Err EOther
+        | Err e => Err e
+        | Panic => Panic
+        end
     end.
 
-  (* mxj.go:39-48 Copy: j, jerr := mv.Json(); if jerr != nil { return nil, jerr }; return NewMapJson(j) *)
+  (* mxj.go Copy: j, jerr := mv.Json(); if jerr != nil { return nil, jerr }; return NewMapJson(j) *)
   Definition map_copy (mv : value) : res value :=
-    let (j, jerr) := map_json false mv in
-    if jerr then Err EOther else new_map_json j.
+    match map_json false mv with
+    | None => Err EOther
+    | Some j => new_map_json j
+    end.
 End JsonCopy.
 
 (* ------------------------------------------------------------------ *)
@@ -255,57 +261,63 @@ Inductive scan_res :=
 | SDoc (jb rest : bytes)     (* return &jb, nil  -- rest = unread bytes *)
 | SEof (jb : bytes)          (* return &jb, io.EOF *)
 | SNoClose (jb : bytes)      (* return &jb, fmt.Errorf("no closing } ...") *)
-| SNilErr.                   (* return nil, fmt.Errorf("closing } without opening {") *)
+| SStray (jb rest : bytes).  (* return &jb, fmt.Errorf("closing } without opening {")  (fix 9f7e6ef; before it: return nil, ...,
+                                which NewMapJsonReaderRaw dereferenced) *)
 
 Definition is_json_ws (c : ascii) : bool :=
   Ascii.eqb c "010"%char || Ascii.eqb c "013"%char || Ascii.eqb c "009"%char || Ascii.eqb c " "%char.
 
-(* jb is accumulated in reverse *)
-Fixpoint get_json (x : bytes) (jb : bytes) (inQuote inJson : bool) (parenCnt : nat) (previous : ascii) : scan_res :=
+(* jb is accumulated in reverse; escaped = the previous byte was an unescaped backslash inside a
+   string (fix 419ac2a; before it the test was previous == backslash, which took the quote after
+   an escaped backslash for an escaped quote) *)
+Fixpoint get_json (x : bytes) (jb : bytes) (inQuote inJson : bool) (parenCnt : nat) (escaped : bool) : scan_res :=
   match x with
   | [] =>
-      (* _, err := rdr.Read(bval) returns io.EOF *)
+      (* rdr.Read(bval) returns (0, io.EOF) *)
       if inJson && (0 <? parenCnt) then SNoClose (rev jb) else SEof (rev jb)
   | c :: x' =>
-      (* after(inQuote, inJson, parenCnt): the statements below the switch *)
+      (* after(inQuote, inJson, parenCnt): the statements below the switch, with the updated state:
+           if inJson { jb = append(jb, c); if parenCnt == 0 { break } }
+           escaped = inQuote && !escaped && c == backslash *)
       let after (inQ inJ : bool) (cnt : nat) :=
+        let esc' := inQ && negb escaped && Ascii.eqb c bsl in
         if inJ then
           if Nat.eqb cnt 0 then SDoc (rev (c :: jb)) x'
-          else get_json x' (c :: jb) inQ inJ cnt c
-        else get_json x' jb inQ inJ cnt c in
+          else get_json x' (c :: jb) inQ inJ cnt esc'
+        else get_json x' jb inQ inJ cnt esc' in
       if Ascii.eqb c "{"%char then
         if inQuote then after inQuote inJson parenCnt else after inQuote true (S parenCnt)
       else if Ascii.eqb c "}"%char then
         if inQuote then after inQuote inJson parenCnt
         else match parenCnt with
-             | O => SNilErr                 (* parenCnt-- ; if parenCnt < 0 { return nil, ... } *)
+             | O => SStray (rev jb) x'      (* parenCnt-- ; if parenCnt < 0 { return &jb, ... } *)
              | S k => after inQuote inJson k
              end
       else if Ascii.eqb c """"%char then
         if inQuote then
-          if Ascii.eqb previous bsl then after inQuote inJson parenCnt   (* break: still in the string *)
+          if escaped then after inQuote inJson parenCnt   (* break: an escaped quote, still in the string *)
           else after false inJson parenCnt
         else after true inJson parenCnt
       else if is_json_ws c then
         if inQuote then after inQuote inJson parenCnt
-        else get_json x' jb inQuote inJson parenCnt previous     (* continue *)
+        else get_json x' jb inQuote inJson parenCnt escaped     (* continue *)
       else after inQuote inJson parenCnt
   end.
 
-Definition scan_json (x : bytes) : scan_res := get_json x [] false false 0 "000"%char.
+Definition scan_json (x : bytes) : scan_res := get_json x [] false false 0 false.
 
 (* json.go:169-178 NewMapJsonReaderRaw over the unread bytes of the file *)
 Section JsonReader.
   Variable json_dec : bytes -> res value.
   Definition json_reader_raw (x : bytes) : taken bytes mapraw :=
     match scan_json x with
-    | SNilErr => mkTaken (VNil, []) RPanic []          (* *jb with jb == nil *)
+    | SStray jb rest => mkTaken (VNil, jb) ROther rest  (* err != nil: return nil, *jb, err *)
     | SEof jb => mkTaken (VNil, jb) REOF []            (* err != nil: return nil, *jb, err *)
     | SNoClose jb => mkTaken (VNil, jb) ROther []
     | SDoc jb rest =>
         match new_map_json json_dec jb with
         | Ok m => mkTaken (m, jb) RNil rest
-        | Err _ => mkTaken (VNil, jb) ROther rest      (* the Map returned with an error is not used by the loop *)
+        | Err _ => mkTaken (VNil, jb) ROther rest      (* NewMapJson returns a nil Map with an error *)
         | Panic => mkTaken (VNil, jb) RPanic rest
         end
     end.
